@@ -2067,3 +2067,218 @@ def class_constants(tree):
                 R().visit(m)
                 done = True
     return done
+
+
+def inline_pure_flags(fn):
+    """`flag = <comparison / membership test / boolean combination>` bound
+    once, over names that are never re-bound in the function and without
+    calls or subscripts -> the test itself at every use of `flag`"""
+    params = {a.arg for a in fn.args.args + fn.args.kwonlyargs
+              + fn.args.posonlyargs}
+    stores = {}
+    for n in ast.walk(fn):
+        if isinstance(n, ast.Name) and isinstance(n.ctx, (ast.Store,
+                                                          ast.Del)):
+            stores[n.id] = stores.get(n.id, 0) + 1
+    done = False
+    for par in [fn] + list(_walk_own(fn)):
+        for fld in ("body", "orelse", "finalbody"):
+            blk = getattr(par, fld, None)
+            if not isinstance(blk, list):
+                continue
+            for i, st in enumerate(list(blk)):
+                if not (isinstance(st, ast.Assign) and len(st.targets) == 1
+                        and isinstance(st.targets[0], ast.Name)
+                        and isinstance(st.value, (ast.Compare, ast.BoolOp))):
+                    continue
+                flag = st.targets[0].id
+                if stores.get(flag, 0) != 1 or flag in params:
+                    continue
+                v = st.value
+                if any(isinstance(x, (ast.Call, ast.Subscript, ast.Attribute,
+                                      ast.NamedExpr, ast.Lambda, ast.Await))
+                       for x in ast.walk(v)):
+                    continue
+                free = {x.id for x in ast.walk(v) if isinstance(x, ast.Name)}
+                if any(stores.get(x, 0) > 0 and x not in params
+                       for x in free) or any(
+                        stores.get(x, 0) > 0 for x in free & params):
+                    continue
+                uses = [n for n in ast.walk(fn) if isinstance(n, ast.Name)
+                        and n.id == flag and isinstance(n.ctx, ast.Load)]
+                if not uses or len(uses) > 4:
+                    continue
+                # uses inside nested functions keep the flag
+                if any(isinstance(d, (ast.FunctionDef, ast.Lambda))
+                       and d is not fn and any(u is x for u in uses
+                                               for x in ast.walk(d))
+                       for d in ast.walk(fn)):
+                    continue
+                from .normalize import _replace_node
+                for u in uses:
+                    _replace_node(fn, u, ast.copy_location(clone(v), u))
+                blk.remove(st)
+                done = True
+    if done:
+        ast.fix_missing_locations(fn)
+    return done
+
+
+def first_match_loops(fn):
+    """`for a, b in [(k1, v1), (k2, v2)]: if <test>: BODY; break` (nothing
+    else in the loop, no else clause) -> `if <test 1>: BODY 1` `elif <test
+    2>: BODY 2`"""
+    done = False
+    for par in [fn] + list(_walk_own(fn)):
+        for fld in ("body", "orelse", "finalbody"):
+            blk = getattr(par, fld, None)
+            if not isinstance(blk, list):
+                continue
+            for i, lp in enumerate(blk):
+                if not (isinstance(lp, ast.For) and not lp.orelse
+                        and isinstance(lp.iter, (ast.List, ast.Tuple))
+                        and 1 <= len(lp.iter.elts) <= 8
+                        and len(lp.body) == 1
+                        and isinstance(lp.body[0], ast.If)
+                        and not lp.body[0].orelse
+                        and lp.body[0].body
+                        and isinstance(lp.body[0].body[-1], ast.Break)):
+                    continue
+                inner = lp.body[0]
+                if any(isinstance(n, (ast.Break, ast.Continue))
+                       for s_ in inner.body[:-1] for n in ast.walk(s_)):
+                    continue
+                chain = []
+                ok = True
+                for e in reversed(lp.iter.elts):
+                    if isinstance(lp.target, ast.Name):
+                        m = {lp.target.id: e}
+                    elif isinstance(lp.target, (ast.Tuple, ast.List)) and \
+                            isinstance(e, (ast.Tuple, ast.List)) and len(
+                                e.elts) == len(lp.target.elts) and all(
+                                isinstance(t, ast.Name)
+                                for t in lp.target.elts):
+                        m = {t.id: v for t, v in zip(lp.target.elts, e.elts)}
+                    else:
+                        ok = False
+                        break
+                    sub = _SubstNames(m)
+                    test = sub.visit(clone(inner.test))
+                    body = [sub.visit(clone(s_)) for s_ in inner.body[:-1]] \
+                        or [ast.Pass()]
+                    chain = [ast.If(test=test, body=body, orelse=chain)]
+                if not ok:
+                    continue
+                # the loop variables must not be used after the loop
+                tnames = set(target_names(lp.target))
+                if any(isinstance(n, ast.Name) and n.id in tnames
+                       for s_ in blk[i + 1:] for n in ast.walk(s_)):
+                    continue
+                for c in chain:
+                    ast.copy_location(c, lp)
+                    ast.fix_missing_locations(c)
+                blk[i:i + 1] = chain
+                done = True
+    return done
+
+
+def specialise_strategies(fn):
+    """`if c: f, g = A, B` / `else: f, g = C, D` (single or several function
+    references, c a test over names that are never re-bound) and later
+    statements of the same block that call f or g -> each such statement is
+    split on c with the callee named directly; the selection is dropped."""
+    stores = {}
+    for n in ast.walk(fn):
+        if isinstance(n, ast.Name) and isinstance(n.ctx, (ast.Store,
+                                                          ast.Del)):
+            stores[n.id] = stores.get(n.id, 0) + 1
+    done = False
+    for par in [fn] + list(_walk_own(fn)):
+        for fld in ("body", "orelse", "finalbody"):
+            blk = getattr(par, fld, None)
+            if not isinstance(blk, list):
+                continue
+            for i, st in enumerate(blk):
+                if not (isinstance(st, ast.If) and st.body and st.orelse):
+                    continue
+
+                def sel(branch):
+                    out = {}
+                    for s_ in branch:
+                        if isinstance(s_, ast.Assign) and len(
+                                s_.targets) == 1 and isinstance(
+                                s_.targets[0], ast.Tuple) and isinstance(
+                                s_.value, ast.Tuple) and len(
+                                s_.targets[0].elts) == len(
+                                s_.value.elts) and all(
+                                isinstance(t, ast.Name) and isinstance(
+                                    v, (ast.Name, ast.Attribute))
+                                for t, v in zip(s_.targets[0].elts,
+                                                s_.value.elts)):
+                            for t, v in zip(s_.targets[0].elts,
+                                            s_.value.elts):
+                                out[t.id] = v
+                            continue
+                        if not (isinstance(s_, ast.Assign) and len(
+                                s_.targets) == 1 and isinstance(
+                                s_.targets[0], ast.Name) and isinstance(
+                                s_.value, (ast.Name, ast.Attribute))):
+                            return None
+                        out[s_.targets[0].id] = s_.value
+                    return out
+                a, b = sel(st.body), sel(st.orelse)
+                if not a or not b or set(a) != set(b):
+                    continue
+                test = st.test
+                if any(isinstance(x, (ast.Call, ast.Subscript, ast.NamedExpr))
+                       for x in ast.walk(test)):
+                    continue
+                if any(stores.get(x.id, 0) > 0 for x in ast.walk(test)
+                       if isinstance(x, ast.Name)):
+                    continue
+                names = set(a)
+                if any(stores.get(nm, 0) != 2 for nm in names):
+                    continue
+                later = blk[i + 1:]
+                # every use of the names is a direct call in a later
+                # statement of this block, one call per statement
+                uses = [n for n in ast.walk(fn) if isinstance(n, ast.Name)
+                        and n.id in names and isinstance(n.ctx, ast.Load)]
+                plan = {}
+                ok = True
+                for u in uses:
+                    host = None
+                    for s_ in later:
+                        if any(u is x for x in ast.walk(s_)):
+                            host = s_
+                    if host is None or isinstance(host, (
+                            ast.For, ast.While, ast.If, ast.With, ast.Try,
+                            ast.FunctionDef)):
+                        ok = False
+                        break
+                    plan.setdefault(id(host), (host, []))[1].append(u)
+                if not ok or not plan:
+                    continue
+                for host, us in plan.values():
+                    calls = [c for c in ast.walk(host) if isinstance(
+                        c, ast.Call) and any(c.func is u for u in us)]
+                    if len(calls) != len(us):
+                        ok = False
+                if not ok:
+                    continue
+                for host, us in plan.values():
+                    def variant(table):
+                        h2 = clone(host)
+                        for c in ast.walk(h2):
+                            if isinstance(c, ast.Call) and isinstance(
+                                    c.func, ast.Name) and c.func.id in names:
+                                c.func = clone(table[c.func.id])
+                        return h2
+                    new = ast.If(test=clone(test), body=[variant(a)],
+                                 orelse=[variant(b)])
+                    ast.copy_location(new, host)
+                    ast.fix_missing_locations(new)
+                    blk[blk.index(host)] = new
+                blk.remove(st)
+                return specialise_strategies(fn) or True
+    return done
